@@ -291,7 +291,7 @@ def rule_flat_length(rep, fb, floor=8, name="SHAPE.flat-length"):
                             args = c[2] if c[0] == "call" else c[4]
                             for x in args:
                                 y = x
-                                while y[0] in ("cast", "narrow"):
+                                while y[0] in ("cast", "narrow", "widen"):
                                     y = y[3]
                                 if y[0] == "mcall" and y[1] == "length" and _numpy_recv(y[3], f, decls):
                                     bad.append(c)
@@ -435,7 +435,7 @@ def _norm_len(e, alias):
     h = e[0]
     if h in ("deref", "addr"):
         return _norm_len(e[1], alias)
-    if h in ("cast", "narrow"):
+    if h in ("cast", "narrow", "widen"):
         return _norm_len(e[3], alias)
     if h == "mcall":
         if e[1] == "get" and not e[4]:
@@ -603,7 +603,7 @@ def rule_raw_store(rep, fb, floor=8, name="FRESH.raw-store"):
 def _buf_owner(e, kind):
     """owner of a buffer pointer / byte offset expression: ('obj', repr) for X.ptr_ / X.ptr() / X.byteoffset_ / X.byteoffset(), ('zero',) for literal 0,
     ('fresh',) for an allocation or a call result, None if not recognisable (a variable: see its definitions)"""
-    while e[0] in ("cast", "narrow"):
+    while e[0] in ("cast", "narrow", "widen"):
         e = e[3]
     names = ("ptr_", "ptr") if kind == "ptr" else ("byteoffset_", "byteoffset")
     if e[0] == "member" and e[2] in names:
